@@ -3,7 +3,7 @@ from __future__ import annotations
 
 from ..core import CheckResult, Repo
 
-LEVEL = "other"
+LEVEL = "translation_validation"
 EXHAUSTIVE = True
 EXPLANATION = (
     "Translation validation of generic resolution on compiler output (tier G): generic dataclass hierarchies are given as "
@@ -28,4 +28,6 @@ ASSUMPTIONS = ["dataclass hierarchies only (the resolver is shared by all kinds;
 def run(repo: Repo, tier: str, res: CheckResult, seed: int = 0) -> None:
     from .. import genprog
     genprog.c16_checks(repo, tier, res, seed)
+    res.coverage["programs"] = 2 * res.counts["GENERIC.parametrisations"][0]     # one loader and one dumper per parametrisation
+    res.coverage["disagreements_checked"] = res.counts["GENERIC.fields"][0]
     res.assumptions = list(ASSUMPTIONS)
